@@ -166,7 +166,12 @@ def sourceShape : List (String × List String) := [
     "q.pop", "unlock", "notify_all", "run", "}", "notify_all"]),
   ("WorkerPool::add_task", ["{", "guard shared_mutex", "q.add", "}", "notify_all"]),
   ("WorkerPool::wait_workers", ["for", "join"]),
-  ("WorkerPool::stop_all_workers", ["{", "guard shared_mutex", "for", "setstop", "}", "notify_all"])]
+  ("WorkerPool::stop_all_workers", ["{", "guard shared_mutex", "for", "setstop", "}", "notify_all"]),
+  -- the protocol of the HASHRPDACBlocks constructor on top of the pool: reserve a slot under `m`,
+  -- enqueue; each task builds its part from its own block only, stores it and counts under `m`,
+  -- notifies; the producer waits for `done = parts.size`, stops the pool and joins it
+  ("Blocks::ctor", ["done?", "guard m", "parts.size", "parts.push", "pool.add_task", "done?", "build-part",
+    "guard m", "parts.store", "done++", "notify_all", "lock m", "wait[done? parts.size]", "pool.stop", "pool.join"])]
 
 /-- Run a schedule (a list of thread ids); `none` if some step is not enabled. -/
 def runSched (st : State → Tid → Option State) : State → List Tid → Option State
